@@ -268,15 +268,26 @@ func (c *Cond) Broadcast() {
 // ---- WaitGroup ----------------------------------------------------------------------------
 
 type WaitGroup struct {
-	wg sync.WaitGroup
-	n  int
+	wg      sync.WaitGroup
+	n       int
+	waiting int    // goroutines parked in Wait
+	gen     uint64 // incremented when the counter reaches zero with waiters: they are released
+}
+
+// wgTicket: a waiter is released when the counter reaches zero (generation change), as in the
+// real implementation, where the wake-up is committed at that moment: an Add that follows before
+// the waiter has returned from Wait makes the real WaitGroup panic ("WaitGroup is reused before
+// previous Wait has returned"). The shim reports that misuse instead of blocking the waiter again.
+type wgTicket struct {
+	w   *WaitGroup
+	gen uint64
 }
 
 //go:norace
-func (w *WaitGroup) blocked(*Sched) bool { return w.n > 0 }
+func (t *wgTicket) blocked(*Sched) bool { return t.w.gen == t.gen }
 
 //go:norace
-func (w *WaitGroup) meta() bool { return false }
+func (t *wgTicket) meta() bool { return false }
 
 //go:norace
 func (w *WaitGroup) Add(delta int) {
@@ -294,6 +305,10 @@ func (w *WaitGroup) add(delta int) {
 	w.n += delta
 	if w.n < 0 {
 		Fail(StatusMisuse, "sync: negative WaitGroup counter")
+	}
+	if w.n == 0 && w.waiting > 0 {
+		w.gen++
+		w.waiting = 0
 	}
 	w.wg.Add(delta)
 }
@@ -316,7 +331,16 @@ func (w *WaitGroup) Wait() {
 		w.wg.Wait()
 		return
 	}
-	s.yield(w, "WaitGroup.Wait", 2)
+	s.yield(nil, "WaitGroup.Wait", 2)
+	if w.n == 0 {
+		w.wg.Wait() // returns at once; keeps the happens-before edge from the Done calls
+		return
+	}
+	w.waiting++
+	s.yield(&wgTicket{w: w, gen: w.gen}, "WaitGroup.Wait", 2)
+	if w.n != 0 {
+		Fail(StatusMisuse, "sync: WaitGroup is reused before previous Wait has returned")
+	}
 	w.wg.Wait()
 }
 
